@@ -275,9 +275,9 @@ func (s *Search) one() (o Object, err error) {
 		return
 	}
 
-	// prevent collecting all results and using only one
-	s.limit = 1
-	if sr, err = s.collect(); err != nil {
+	// prevent collecting all results and using only one, the limit
+	// set on the search stays what it was
+	if sr, err = s.collectLimit(1); err != nil {
 		return
 	}
 	o = sr[0]
@@ -285,6 +285,12 @@ func (s *Search) one() (o Object, err error) {
 }
 
 func (s *Search) collect() (out []Object, err error) {
+	return s.collectLimit(s.limit)
+}
+
+// collectLimit collects at most limit results. The limit is a setting of the
+// search: collecting does not use it up
+func (s *Search) collectLimit(limit uint64) (out []Object, err error) {
 	var it *iterator
 	var o Object
 
@@ -301,9 +307,9 @@ func (s *Search) collect() (out []Object, err error) {
 	}
 
 	out = make([]Object, 0, it.len())
-	for o, err = it.next(); err == nil && err != ErrEOI && s.limit > 0; o, err = it.next() {
+	for o, err = it.next(); err == nil && err != ErrEOI && limit > 0; o, err = it.next() {
 		out = append(out, o)
-		s.limit--
+		limit--
 	}
 
 	// normal end of iterator
